@@ -78,3 +78,77 @@ def check_declared_types(L, obs, expected_events):
             if type(ev.value) is not t:
                 return ("value-class", i, f"{path}: value class {type(ev.value).__name__}, declared {tname}")
     return None
+
+
+def wellformed_campaign(ctx, L, body, k, random_n, big=None, streams_n=0):
+    """The standard search over well-formed encodings: deterministic coverage pass (all structure types, all ways to
+    select a union arm, all command codes x session shapes x encryption x failure) followed by random cases."""
+    from .. import gen
+
+    big = (not ctx.quick()) if big is None else big
+    for t in ctx.mine(L.non_union_types()):
+        ctx.run_given(gen.structures(L, t), body, k, name=f"type:{t}")
+    for sname, sf, v in ctx.mine(gen.selector_points(L)):
+        ctx.run_given(gen.structures(L, sname, overrides={sf: v}), body, 1, name=f"arm:{sname}:{sf}:{v}")
+    for cc in ctx.mine(sorted(L.commands)):
+        for ns in (None, 0, 1, 2, 3):
+            ctx.run_given(gen.commands(L, cc, sessions=ns), body, k, name=f"cmd:{cc}:{ns}")
+            ctx.run_given(gen.responses(L, cc, sessions=ns, failed=False), body, k, name=f"rsp:{cc}:{ns}")
+        ctx.run_given(gen.commands(L, cc, sessions=2, decrypt=True), body, k, name=f"cmd:{cc}:enc")
+        ctx.run_given(gen.responses(L, cc, sessions=2, enc=True, failed=False), body, k, name=f"rsp:{cc}:enc")
+        ctx.run_given(gen.responses(L, cc, failed=True), body, k, name=f"rsp:{cc}:failed")
+    ctx.run_given(gen.messages(L, big=big), body, ctx.share(random_n), name="random")
+    if streams_n:
+        ctx.run_given(gen.streams(L, max_pairs=3 if ctx.quick() else 6, big=big), body, ctx.share(streams_n), name="streams")
+
+
+def classify_wellformed(ctx, case):
+    ctx.add("types", case.type if case.type not in ("Command", "Response") else f"{case.type}:{case.meta.get('cc_name')}")
+    for u in case.meta.get("unions", []):
+        ctx.add("union_arms", tuple(u))
+    for t, n in case.meta.get("lists", []):
+        ctx.add("list_lengths", n)
+    for fl in case.meta.get("flags", []):
+        ctx.count(f"flag:{fl}")
+    if case.type in ("Command", "Response"):
+        ctx.count(f"{case.type}:sessions={case.meta.get('sessions')}")
+        if case.meta.get("decrypt") or case.enc:
+            ctx.count(f"{case.type}:encrypted")
+        if case.meta.get("failed"):
+            ctx.count("Response:failed")
+
+
+def coverage_finalize(merged, need_arms=True):
+    from .. import gen
+
+    L = layout()
+    want = set(L.non_union_types())
+    for cc in L.commands:
+        want.add(f"Command:{cc}")
+        want.add(f"Response:{cc}")
+    missing = want - set(merged["sets"].get("types", ()))
+    if missing:
+        return {"harness_error": f"coverage pass never produced: {sorted(missing)[:10]}"}
+    arms = {tuple(a) for a in gen.reachable_arms(L)}
+    hit = {tuple(a) for a in merged["sets"].get("union_arms", ())}
+    if need_arms and arms - hit:
+        return {"harness_error": f"union arms never produced: {sorted(arms - hit)[:10]}"}
+    return {"coverage": {"all_types_and_command_codes_covered": True, "reachable_union_arms": len(arms), "reachable_union_arms_hit": len(arms & hit)}}
+
+
+class ReplayCase:
+    """A Case rebuilt from a replay payload (bytes + arguments); expected events come from the reference model."""
+
+    def __init__(self, L, payload):
+        self.type, self.data, self.cc, self.enc = payload["type"], payload["data"], payload.get("cc"), bool(payload.get("enc"))
+        self.meta = payload.get("meta") or {}
+        r = ref_decode(L, self.type, self.data, command_code=self.cc, enc=self.enc)
+        self.events = r.events
+        self.spans = r.spans
+        self._r = r
+
+    def n_prims(self):
+        return len(self.spans)
+
+    def brief(self):
+        return {"type": self.type, "hex": self.data.hex(), "command_code": self.cc, "enc": self.enc}
